@@ -215,6 +215,13 @@ func Thorough() bool { return os.Getenv("VERIF_TIER") == "thorough" }
 // gen(rand). Each evaluation runs under recover(); one line per case goes to
 // VERIF_OUT. eval may return nil to skip an input it cannot express.
 func Run(t *testing.T, gen func(r *Rand) [][]*big.Int, eval func(in []*big.Int) []*big.Int) {
+	Run2(t, gen, func(in []*big.Int) ([]*big.Int, []*big.Int) { return in, eval(in) })
+}
+
+// Run2 is Run for evaluators that resolve nondeterminism the model cannot predict
+// (shuffles, map order, sort ties): eval returns the input annotated with what it
+// observed (the annotated input is what the model sees) and the output.
+func Run2(t *testing.T, gen func(r *Rand) [][]*big.Int, eval func(in []*big.Int) ([]*big.Int, []*big.Int)) {
 	var inputs [][]*big.Int
 	var tags []string
 	if p := os.Getenv("VERIF_REPLAY"); p != "" {
@@ -253,11 +260,11 @@ func Run(t *testing.T, gen func(r *Rand) [][]*big.Int, eval func(in []*big.Int) 
 	}
 	w := bufio.NewWriterSize(f, 1<<20)
 	for i, in := range inputs {
-		out := safeEval(eval, in)
+		in2, out := safeEval(eval, in)
 		if out == nil {
 			continue
 		}
-		fmt.Fprintf(w, "%s | %s | %s\n", tags[i], show(in), show(out))
+		fmt.Fprintf(w, "%s | %s | %s\n", tags[i], show(in2), show(out))
 	}
 	if err := w.Flush(); err != nil {
 		t.Fatal(err)
@@ -267,11 +274,30 @@ func Run(t *testing.T, gen func(r *Rand) [][]*big.Int, eval func(in []*big.Int) 
 	}
 }
 
-func safeEval(eval func(in []*big.Int) []*big.Int, in []*big.Int) (out []*big.Int) {
+func safeEval(eval func(in []*big.Int) ([]*big.Int, []*big.Int), in []*big.Int) (in2, out []*big.Int) {
 	defer func() {
 		if r := recover(); r != nil {
-			out = PanicOut
+			in2, out = in, PanicOut
 		}
 	}()
 	return eval(in)
+}
+
+// Sub returns a decoder over the next length-prefixed record.
+func (d *D) Sub() *D {
+	n := d.Int()
+	if n < 0 || n > d.Left() {
+		d.Bad = true
+		return NewD(nil)
+	}
+	s := NewD(d.L[d.pos : d.pos+n])
+	d.pos += n
+	return s
+}
+
+// Rec appends a length-prefixed record.
+func (b *B) Rec(r *B) *B {
+	b.I(len(r.L))
+	b.L = append(b.L, r.L...)
+	return b
 }
